@@ -93,4 +93,24 @@ MUTANTS = [
     (CC, "rank_to_flatconfig_mixed_radix_nosymm", "(flatconfig, r, sizes, strides)", "(flatconfig, r, strides, sizes)", "expect-fail"),
     (CC, "rank_to_flatconfig_mixed_radix_nosymm", "(flatconfig, r, sizes, strides)", "(flatconfig, r + 1, sizes, strides)", "expect-fail"),
     (CC, "rank_to_flatconfig_mixed_radix_nosymm", "return flatconfig", "return sizes", "expect-fail"),
+    # flatconfig_to_rank_u1u1_pascal
+    (CC, "flatconfig_to_rank_u1u1_pascal", "Db = pt[nb, kb]", "Db = pt[na, ka]", "expect-fail"),
+    (CC, "flatconfig_to_rank_u1u1_pascal", "flatconfig[:na], na, ka, pt", "flatconfig[:na], nb, kb, pt", "expect-fail"),
+    (CC, "flatconfig_to_rank_u1u1_pascal", "flatconfig[na:], nb, kb, pt", "flatconfig[nb:], nb, kb, pt", "expect-fail"),
+    (CC, "flatconfig_to_rank_u1u1_pascal", "flatconfig[na:], nb, kb, pt", "flatconfig[:na], nb, kb, pt", "expect-fail"),
+    (CC, "flatconfig_to_rank_u1u1_pascal", ") * Db + flatconfig_to_rank_u1_pascal", ") + Db * flatconfig_to_rank_u1_pascal", "expect-fail"),
+    (CC, "flatconfig_to_rank_u1u1_pascal", "Db = pt[nb, kb]", "Db = pt[nb, kb] + 1", "expect-fail"),
+    # rank_into_flatconfig_u1u1_pascal
+    (CC, "rank_into_flatconfig_u1u1_pascal", "r1 = r // Db\n    r2 = r % Db", "r1 = r % Db\n    r2 = r // Db", "expect-fail"),
+    (CC, "rank_into_flatconfig_u1u1_pascal", "Db = pt[nb, kb]", "Db = pt[na, ka]", "expect-fail"),
+    (CC, "rank_into_flatconfig_u1u1_pascal", "flatconfig[na:], r2, nb, kb, pt", "flatconfig[nb:], r2, nb, kb, pt", "expect-fail"),
+    (CC, "rank_into_flatconfig_u1u1_pascal", "flatconfig[na:], r2, nb, kb, pt", "flatconfig[na:], r1, nb, kb, pt", "expect-fail"),
+    (CC, "rank_into_flatconfig_u1u1_pascal", "flatconfig[:na], r1, na, ka, pt", "flatconfig[:na], r1, na, kb, pt", "expect-fail"),
+    (CC, "rank_into_flatconfig_u1u1_pascal", "rank_into_flatconfig_u1_pascal(flatconfig[na:], r2, nb, kb, pt)", "pass", "expect-fail"),
+    (CC, "rank_into_flatconfig_u1u1_pascal", "rank_into_flatconfig_u1_pascal(flatconfig[:na], r1, na, ka, pt)\n    rank_into_flatconfig_u1_pascal(flatconfig[na:], r2, nb, kb, pt)", "rank_into_flatconfig_u1_pascal(flatconfig[na:], r2, nb, kb, pt)\n    rank_into_flatconfig_u1_pascal(flatconfig[:na], r1, na, ka, pt)", "benign"),
+    # rank_to_flatconfig_u1u1_pascal
+    (CC, "rank_to_flatconfig_u1u1_pascal", "np.empty(na + nb, dtype=np.uint8)", "np.empty(na, dtype=np.uint8)", "expect-fail"),
+    (CC, "rank_to_flatconfig_u1u1_pascal", "(flatconfig, r, na, ka, nb, kb, pt)", "(flatconfig, r, nb, kb, na, ka, pt)", "expect-fail"),
+    (CC, "rank_to_flatconfig_u1u1_pascal", "(flatconfig, r, na, ka, nb, kb, pt)", "(flatconfig, r, na, kb, nb, ka, pt)", "expect-fail"),
+    (CC, "rank_to_flatconfig_u1u1_pascal", "(flatconfig, r, na, ka, nb, kb, pt)", "(flatconfig, r - 1, na, ka, nb, kb, pt)", "expect-fail"),
 ]
